@@ -1,9 +1,10 @@
 """C16 -- Scanners and matchers are total and report only well-formed ranges.
-Thin dispatcher: one library module per half."""
+Thin dispatcher: one library module per half (HTML: strings, and call sequences with caller-owned options)."""
+import c16_calls
 import c16_css
 import c16_html
 
-HALVES = [c16_html.run_html, c16_css.run_css]
+HALVES = [c16_html.run_html, c16_calls.run_calls, c16_css.run_css]
 
 
 def _css_replay(ctx, obj):
@@ -12,7 +13,7 @@ def _css_replay(ctx, obj):
     return c16_css.replay_css(ctx, obj)
 
 
-REPLAYS = [c16_html.replay_html, _css_replay]
+REPLAYS = [c16_html.replay_html, c16_calls.replay_calls, _css_replay]
 
 
 def run(ctx):
